@@ -257,6 +257,12 @@ def val_of(rng, cls, key, default_repr, files):
     return None
 
 
+# keys for which zero is a value the real constructor accepts
+ZERO_OK = {'Guillot2010': ('alpha', 'T_int'), 'Planet': ('albedo', 'impact_param'), 'BlackbodyStar': ('metallicity',),
+           'LeeMieContribution': ('lee_mie_mix_ratio',), 'FlatMieContribution': ('flat_mix_ratio',),
+           'ConstantGas': ('mix_ratio',), 'TwoLayerGas': ('mix_ratio_smoothing',), 'NestleOptimizer': ('tol',)}
+
+
 def raw_to_lit(v):
     """configobj raw value -> sval literal"""
     def isnum(s):
@@ -505,6 +511,9 @@ def gen_component(rng, info, field, files, scenario, aliases_case=True):
     for k, d in keys[:rng.randint(0, min(4, len(keys)))]:
         t = val_of(rng, info['name'], k, d, files)
         if t is not None:
+            # a numeric key set to exactly zero is a value like any other (it must reach the constructor)
+            if rng.random() < 0.12 and k in ZERO_OK.get(info['name'], ()):
+                t = rng.choice(['0', '0.0'])
             ent[k] = t
     if scenario == 'unknown-key':
         ent[rng.choice(['bogus_key', 'Temperature', 't', 'nlayer', 'mix_ratios', 'T_irrr'])] = rng.choice(['1', 'yes', 'a, b'])
